@@ -231,7 +231,8 @@ def run(ctx):
                           'C01-header-dbname', 'C01-whole-dbname', 'C01-header-efilepath', 'C01-whole-efilepath',
                           'C01-whole@structural_adaptive_ecc', 'C01-whole@saecc', 'C01-whole@protect', 'C01-whole@repair',
                           'C01-header@header_ecc', 'C01-header@hecc',
-                          'C01-header-prefill', 'C01-whole-prefill', 'C01-header-prefixout', 'C01-whole-prefixout'])
+                          'C01-header-prefill', 'C01-whole-prefill', 'C01-header-prefixout', 'C01-whole-prefixout',
+                          'C01-header-skipext', 'C01-whole-skipext'])
     from props import toolrun_lib
     toolrun_lib.stream(ctx)
     from props import selrun_lib
